@@ -306,15 +306,19 @@ WorkerSend(w) ==
   /\ UNCHANGED <<inVars, ctx, ctx2, callVars, enq, enqClosed, readyClosed, finClosed, loopVars, jobVars, nextW, started, endst, doomedH, ctxAtClose>>
 
 \* lines 137-138: a dying worker reports the failure and starts its replacement
-WorkerDSend(w) ==
+\* the replacement takes slot r (WorkerDSend: the next unused slot; the trace spec lets TLC choose, because
+\* which recorded goroutine is the replacement of which is not recorded)
+WorkerDSendTo(w, r) ==
   /\ wpc[w] = "dsend" /\ Len(donec) < nW
-  /\ nextW <= MaxW                        \* Goexit budget of the model
+  /\ r \in Workers /\ wpc[r] = "unborn"
   /\ donec' = Append(donec, <<wjob[w], wres[w]>>)
-  /\ wpc' = [wpc EXCEPT ![w] = "dead", ![nextW] = "recv"]
+  /\ wpc' = [wpc EXCEPT ![w] = "dead", ![r] = "recv"]
   /\ nextW' = nextW + 1
   /\ wjob' = [wjob EXCEPT ![w] = 0] /\ wres' = [wres EXCEPT ![w] = NOERR]
   /\ owner' = [owner EXCEPT ![wjob[w]] = "chan"]
-  /\ UNCHANGED <<inVars, ctx, ctx2, callVars, enq, enqClosed, readyClosed, finClosed, loopVars, jobVars, started, endst, doomedH, ctxAtClose>>
+  /\ UNCHANGED <<inVars, ctx, ctx2, callVars, enq, enqClosed, readyClosed, finClosed, loopVars, jobVars,
+                 started, endst, doomedH, ctxAtClose>>
+WorkerDSend(w) == nextW <= MaxW /\ WorkerDSendTo(w, nextW)      \* nextW <= MaxW: Goexit budget of the model
 
 ----------------------------------------------------------------------------
 LiveWorkers == {w \in Workers : wpc[w] \notin {"unborn", "dead"}}
